@@ -295,6 +295,11 @@ package middleware
 //@ ensures [C06:binder] calls(BR) <= 1 && (calls(BR) == 1 ==> recv(BR,0) == binder && arg(BR,0,0) == request && arg(BR,0,1) == route)
 //@ ensures [C06:bindererr] calls(BR) == 1 && ret(BR,0,0) != nil ==> result == ret(BR,0,0)
 //@ ensures [C06:ok] result == nil ==> (calls(VC) == 1 ==> ret(VC,0,0) == nil) && (calls(RC) == 1 ==> ret(RC,0,2) == nil) && (calls(BR) == 1 ==> ret(BR,0,0) == nil)
+//@ ensures [C06:accepted] (calls(RC) == 1 ==> ret(RC,0,2) == nil) && (calls(VC) == 1 ==> ret(VC,0,0) == nil && in(ret(RC,0,0), old(route.Consumers))) && (calls(NG) == 1 ==> ret(NG,0,0) != "") && (calls(BR) == 1 ==> ret(BR,0,0) == nil) ==> result == nil
+//@ ensures [C07:negotiated] calls(NG) <= 1 && (calls(NG) == 1 ==> arg(NG,0,0) == request && arg(NG,0,1) == old(route.Produces))
+//@ ensures [C07:default] calls(NG) == 1 ==> (calls(VC) == 1 && (ret(RC,0,0) != "" || len(old(route.Produces)) > 0) ==> arg(NG,0,2) == ret(RC,0,0)) && (calls(VC) == 0 && len(old(route.Produces)) == 0 ==> arg(NG,0,2) == "*/*") && (calls(VC) == 0 && len(old(route.Produces)) > 0 ==> arg(NG,0,2) == "")
+//@ ensures [C07:asked] (calls(RC) == 1 ==> ret(RC,0,2) == nil) && (calls(VC) == 1 ==> ret(VC,0,0) == nil && in(ret(RC,0,0), old(route.Consumers))) ==> calls(NG) == 1
+//@ ensures [C06:bound] calls(NG) == 1 && ret(NG,0,0) != "" && binder != nil ==> calls(BR) == 1
 
 // validateRequest: content type, then response format, then parameters; a later stage runs only if no earlier one failed.
 //@ func validateRequest
